@@ -405,6 +405,24 @@ def replay(unit_name, inp, obligation=""):
             viol = damaged("bad.rtdc", fl, dmg)
             if not any(needle in v for v in viol):
                 return {"failed": True, "detail": f"{name}: no violation mentions '{needle}' (violations: {viol[:3]})"}
+        # every image-like feature whose frame size contradicts the ROI is reported, one by one
+        def resize(feats):
+            def dmg(h5):
+                for ft in feats:
+                    old = h5["events"][ft]
+                    attrs = dict(old.attrs)
+                    data = np.zeros((old.shape[0], old.shape[1], old.shape[2] + 2), dtype=old.dtype)
+                    del h5["events"][ft]
+                    ds_ = h5["events"].create_dataset(ft, data=data)
+                    for k_, v_ in attrs.items():
+                        ds_.attrs[k_] = v_
+            return dmg
+        for feats in (("mask",), ("image",), ("image", "mask")):
+            viol = damaged("roi.rtdc", False, resize(feats))
+            for ft in feats:
+                if not any("roi size x" in v and f"feature {ft} " in v for v in viol):
+                    return {"failed": True, "detail": f"frames of {' and '.join(feats)} are 2 px wider than [imaging] 'roi size x': "
+                                                      f"no violation names '{ft}' (violations: {viol[:3]})"}
         # a dataset whose only fluorescence data is the third channel is still checked for fluorescence metadata
         f = _write(d / "fl3.rtdc", fl=True, mutate=lambda m, f_: (f_.pop("fl1_max"), m.pop("fluorescence")))
         viol = _cues(f)[0]
